@@ -236,7 +236,22 @@ TEMPLATES = {
 TEMPLATE_MACRO = "macro tm($a) {\n    if ($a == 1) {\n        return;\n    }\n    m($a);\n}\n"
 
 
+SPECIAL_PROGRAMS = [
+    # a jump into a LATER routine with a dropped op before the target (positions of later routines must be known)
+    "def 0 {\n    jump @skip;\n    @skip;\n    a();\n    jump @later;\n}\ndef 1 {\n    if ($A == 1) {\n        b();\n    }\n    @later;\n    target_op();\n    hold;\n}\n",
+    "def 0 {\n    if ($A == 1) {\n        x();\n    }\n    call @sub;\n    end;\n}\ndef 1 for actor ACTOR_X {\n    y();\n    @sub;\n    z();\n    return;\n}\ndef 2 for object 3 {\n    jump @sub;\n}\n",
+    # accepted programs without any routine
+    "macro only() {\n    o();\n}\n",
+    "// nothing here\n",
+    "",
+    # first / last op of the document as jump targets
+    "def 0 {\n    @top;\n    a();\n    if ($A == 1) {\n        jump @top;\n    }\n    @bottom;\n    end;\n}\ndef 1 {\n    jump @bottom;\n}\n",
+]
+
+
 def template_program(rng: random.Random) -> str:
+    if rng.random() < 0.15:
+        return rng.choice(SPECIAL_PROGRAMS)
     names = sorted(TEMPLATES)
     k = rng.choice([1, 1, 2, 2, 3])
     picks = [rng.choice(names) for _ in range(k)]
@@ -317,6 +332,8 @@ def handbuilt_documents() -> list[tuple[str, dict]]:
         {"type": "ACTOR", "target_id": 2, "ops": [{"opcode": "test_actor_id", "params": []}, {"opcode": "End", "params": []}]},
         {"type": "OBJECT", "target_id": "OBJECT_X_1", "ops": [{"opcode": "o", "params": []}, {"opcode": "End", "params": []}]},
         {"type": "PERFORMER", "target_id": 0, "ops": [{"opcode": "p", "params": []}, {"opcode": "End", "params": []}]}])))
+    out.append(("zero_routines", doc([])))
+    out.append(("all_routines_empty", doc([{"type": "GENERIC", "ops": []}, {"type": "ACTOR", "target_id": 1, "ops": []}])))
     out.append(("coroutine_after_other_routines", doc([
         {"type": "GENERIC", "ops": [{"opcode": "a", "params": []}, {"opcode": "End", "params": []}]},
         {"type": "COROUTINE", "name": "CORO_X", "ops": [{"opcode": "x", "params": []}, {"opcode": "Return", "params": []}]},
